@@ -343,6 +343,8 @@ class CallsMixin:
             obj = obj.value
         if type(obj).__name__ == "Bottom":
             return obj
+        if isinstance(obj, SObj) and isinstance(obj.cls, type) and issubclass(obj.cls, BaseException) and name == "with_traceback":
+            return obj
         if isinstance(obj, SObj):
             cls = obj.cls
             qn_cls = self.qual_of(cls)
